@@ -12,9 +12,12 @@ REQUIRED = ["DaeVerif.C17.Props." + n for n in [
     "unknown_key_rejected_one_struct", "missing_required_key_rejected_one_struct", "written_list_replaces_default", "defaults_applied", "defaults_applied_scalar", "defaults_applied_any_depth",
     "default_routing_fallback_applied", "default_http_method_applied",
     "oversize_rejected", "oversize_domain_set_rejected", "compiled_within_limit",
+    "merged_map_one_section_per_name", "readConfig_independent_of_map_order", "readConfig_decodes_every_file_in_order",
+    "readConfig_checks_every_file", "optimizers_never_enlarge", "optimizers_never_cause_oversize", "production_oversize_rejected",
+    "written_value_is_stored",
 ]]
 
-PARSE_SHARDS, CONFIG_SHARDS, COMPILE_SHARDS = 4, 2, 2
+PARSE_SHARDS, CONFIG_SHARDS, COMPILE_SHARDS = 4, 3, 2
 MAX_PROCS = 6
 
 
@@ -172,7 +175,7 @@ def _sh(cmd):
     return subprocess.run(cmd, stdout=subprocess.PIPE, stderr=subprocess.DEVNULL).stdout
 
 
-def cached_build(ctx, pkg, files, out_name, tags):
+def cached_build(ctx, pkg, files, out_name, tags, extra_overlay=None):
     """Linking the cmd/control test binaries costs 40-90 s even with a warm Go build cache.  Reuse the
     binary of an earlier run when NOTHING that goes into it changed: the harness files, the shared
     helper template, the build tags and the complete state of the repo under test (HEAD, diff against
@@ -193,6 +196,9 @@ def cached_build(ctx, pkg, files, out_name, tags):
             except OSError:
                 pass
     h.update(_sh(["go", "version"]))
+    for dst, src in sorted((extra_overlay or {}).items()):
+        h.update(dst.encode())
+        h.update(open(src, "rb").read() if src else b"")
     cdir = os.path.join(CACHE, "bin", "c17cache")
     os.makedirs(cdir, exist_ok=True)
     cached = os.path.join(cdir, f"{out_name}-{h.hexdigest()[:16]}.test")
@@ -210,7 +216,7 @@ def cached_build(ctx, pkg, files, out_name, tags):
             return local
         except OSError:
             pass                       # pruned under our feet: build it
-    binp = ctx.go_test_build(pkg, files, out_name, tags=tags)
+    binp = ctx.go_test_build(pkg, files, out_name, tags=tags, extra_overlay=extra_overlay)
     if binp and have_git:
         try:
             tmp = cached + f".tmp{os.getpid()}.{threading.get_ident()}"
@@ -245,17 +251,31 @@ FLOORS = {
         "z.boundary.domain-set-at-index-1024": 3, "z.r.result.ok": 10, "model.z.err:oversize": 5,
         "pipeline.routing.built": 120, "pipeline.dns.built": 100, "pipeline.group.policy-ok": 100, "stress.params": 1, "stress.nest": 1,
         "e2e.result.accepted": 15, "e2e.result.rejected": 100, "child.processes.all": 2,
+        # reload histories on one tree, the permission bits one by one
+        "inc.history.trees": 30, "inc.history.step2": 30, "inc.history.edit": 250, "inc.history.result.ok": 25,
+        "inc.perm.too-open.0610": 25, "inc.perm.too-open.0010": 25, "inc.perm.too-open.0601": 25, "inc.perm.too-open.0602": 25,
+        "inc.perm.too-open.0604": 25, "inc.perm.too-open.0620": 25, "inc.perm.accepted.0740": 30, "inc.perm.accepted.0440": 30,
+        "inc.directory-symlinks": 30, "inc.opened.through-directory-link-leading-outside": 1,
+        # Merge ; New on split configurations
+        "read.result.ok": 50, "read.section-in-two-pieces": 100, "read.layout.chain": 20, "read.layout.glob": 20,
+        "read.layout.list": 20, "read.layout.tree": 20, "model.r.err:merge:circular": 5,
+        # FuzzyDecode / BootstrapResolvers against the standard library
+        "dec.duration.accepted": 30, "dec.duration.rejected": 200, "dec.addrport.accepted": 10, "dec.addrport.rejected": 20,
+        # production path through the optimizers
+        "y.r.result.ok": 25, "model.y.err:oversize": 10, "y.s.result.ok": 5, "y.directed.ports-same-value": 4,
+        "y.directed.ports-one-outbound": 4, "y.directed.must-spellings": 4, "y.directed.domain-keys-aliased": 4,
     },
 }
-FLOORS["thorough"] = {k: (v * 8 if v > 3 and not k.startswith(("z.boundary", "stress", "inc.directed", "child", "dec.")) else v)
+FLOORS["thorough"] = {k: (v * 8 if v > 3 and not k.startswith(("z.boundary", "stress", "inc.directed", "child", "dec.", "y.directed")) else v)
                       for k, v in FLOORS["quick"].items()}
 
 
 class Part:
     """one harness binary: build, run its shards in parallel, model every stream, diff."""
 
-    def __init__(self, ctx, sem, drv_ready, pkg, files, out_name, test, prefix, shards, what, tags):
+    def __init__(self, ctx, sem, drv_ready, pkg, files, out_name, test, prefix, shards, what, tags, overlay_fn=None):
         self.ctx, self.sem, self.drv_ready = ctx, sem, drv_ready
+        self.overlay_fn = overlay_fn
         self.pkg, self.files, self.out_name, self.test = pkg, files, out_name, test
         self.prefix, self.shards, self.what, self.tags = prefix, shards, what, tags
         self.names = [f"{prefix}{i}" for i in range(shards)]
@@ -280,7 +300,12 @@ class Part:
     def run(self):
         ctx = self.ctx
         with self.sem:
-            binp = cached_build(ctx, self.pkg, self.files, self.out_name, self.tags)
+            extra = self.overlay_fn() if self.overlay_fn else None
+            binp = cached_build(ctx, self.pkg, self.files, self.out_name, self.tags, extra)
+            if not binp and self.overlay_fn:
+                # the regenerated optimizer chain did not compile inside the harness: fall back to the copy
+                extra = self.overlay_fn(fallback=True)
+                binp = cached_build(ctx, self.pkg, self.files, self.out_name, self.tags, extra)
         if not binp:
             self.failed = "build failed"
             return
@@ -304,7 +329,7 @@ class Part:
             # error classes for the generator floors come from the MODEL's answers (the harness's classes
             # are derived from message texts, which a harmless rewording changes)
             for op, mo in zip(read_lines(ops), read_lines(model)):
-                if mo.startswith("err:") and op[:2] in ("c ", "m ", "z "):
+                if mo.startswith("err:") and op[:2] in ("c ", "m ", "z ", "r ", "y "):
                     cls = mo.split(" ")[0].split("@")[0]
                     key = f"model.{op[0]}.{cls}"
                     self.model_classes[key] = self.model_classes.get(key, 0) + 1
@@ -328,7 +353,9 @@ def run(ctx):
         "filepath.Glob is an oracle (real answers for the patterns the model is expected to compute, entry directory quoted); the file system is described to the model (files, directories, final-component symbolic links, working directory); directory symlinks are not generated",
         "real opens are observed with inotify (IN_OPEN) on the temp tree, its parent and one unrelated directory: opens elsewhere are not observable; the opened set of the real code must be a subset of the model's",
         "value parsers of rule compilation (IP, port, MAC, regex, geodata …) are not modelled: the size stream uses well-formed values, the pipeline stream only checks absence of panics",
-        "cmd.readConfig is compared with the composition of the two real stages Merger.Merge ; config.New (each tied to the model), not with the model directly",
+        "cmd.readConfig is compared with the composition of the two real stages Merger.Merge ; config.New; that composition is compared with the model's readConfig on split configurations (r ops)",
+        "the answers given to the model for durations and for bootstrap_resolver come from the Go standard library (time.ParseDuration; TrimSpace + netip.ParseAddrPort), and the real FuzzyDecode / BootstrapResolvers are compared with them (do ops)",
+        "production path of the traffic rules (y ops): the optimizer list is regenerated from control/control_plane.go by translators/optchain; the geodata reader stage is the identity on the generated programs (no geosite:/geoip:/ext: parameters; the driver refuses programs that have them); DNS request rules (SplitRequestRules) are not on this path",
     ]
     sem = threading.Semaphore(MAX_PROCS)
     drv_ready = threading.Event()
@@ -339,13 +366,22 @@ def run(ctx):
     if not ok:
         ctx.proof_failures.append("lake build c17drv failed: " + out[-1500:])
 
+    chain_mode = {}
+
+    def optchain(fallback=False):
+        """the optimizer list NewControlPlane hands to routing.NewNormalizedProgram, regenerated from the
+        CURRENT control/control_plane.go (translators/optchain, shared with C01/C02/C04)"""
+        ov, mode = ctx.optchain_overlay(fallback=fallback)
+        chain_mode["mode"] = mode
+        return ov
+
     parts = [
         Part(ctx, sem, drv_ready, "pkg/config_parser", ["pkg/config_parser/c17_test.go", shared_file(ctx, "config_parser", True)],
              "c17parse", "TestVerifC17Parse", "c17p", PARSE_SHARDS, "config_parser.Parse", ""),
         Part(ctx, sem, drv_ready, "config", ["config/c17_test.go", shared_file(ctx, "config", False)],
              "c17config", "TestVerifC17Config", "c17c", CONFIG_SHARDS, "config.New / Merger / paths", ""),
         Part(ctx, sem, drv_ready, "control", ["control/c17_test.go", shared_file(ctx, "control", False)],
-             "c17compile", "TestVerifC17Compile", "c17z", COMPILE_SHARDS, "rule compilation / pipeline", "dae_stub_ebpf"),
+             "c17compile", "TestVerifC17Compile", "c17z", COMPILE_SHARDS, "rule compilation / pipeline", "dae_stub_ebpf", overlay_fn=optchain),
         Part(ctx, sem, drv_ready, "cmd", ["cmd/c17_test.go"],
              "c17readconfig", "TestVerifC17ReadConfig", "c17e", 1, "cmd.readConfig vs Merger.Merge;config.New", "dae_stub_ebpf"),
     ]
@@ -365,6 +401,10 @@ def run(ctx):
     n_eval = sum(p.collect() for p in parts)
     names = [nm for p in parts for nm in p.names]
     schema_drift(ctx, names)
+    ctx.cov["production_optimizer_chain"] = chain_mode.get("mode", "?")
+    if "FALLBACK" in chain_mode.get("mode", ""):
+        ctx.say("NOTE property=C17 the production optimizer chain could not be regenerated from control_plane.go: " + chain_mode["mode"])
+        ctx.assumptions.append("production path stream (y ops) used a COPY of the optimizer chain: " + chain_mode["mode"])
     ncd = sum(p.class_diffs for p in parts)
     ctx.cov["error_class_differences_not_compared"] = ncd
     if ncd:
@@ -391,7 +431,7 @@ def run(ctx):
     distinct = set()
     for nm in names:
         for op, im in zip(read_lines(os.path.join(ctx.out, nm + ".ops")), read_lines(os.path.join(ctx.out, nm + ".impl"))):
-            if im.startswith("ok S") or (im.startswith("ok ") and op[:2] in ("c ", "m ", "z ")):
+            if im.startswith("ok S") or (im.startswith("ok") and op[:2] in ("c ", "m ", "z ", "r ", "y ")):
                 distinct.add(op[:4000])
     crashes = sum(v for k, v in counters.items() if k.endswith("CRASH"))
     ctx.samples = samples[:10]
@@ -402,5 +442,6 @@ def run(ctx):
     ]
     return ctx.finish(rule="one evaluation = one op line run through the real code and the Lean model (p: Parse of a text; c: config.New of a text; "
                            "m: Merger.Merge of a directory tree; path: Clean/Join/Dir/EnsureFileInSubDir of a path pair; z: rule compilation of a program; "
-                           "n: whole pipeline under recover); distinct_nontrivial = distinct ACCEPTED inputs (p with ≥1 section, c, m, z) whose full result was compared",
+                           "n: whole pipeline under recover; r: Merge;New of a configuration split over a directory tree; y: production path text → config.New → optimizers → builder; "
+                           "do: FuzzyDecode / BootstrapResolvers of a value against the standard library); distinct_nontrivial = distinct ACCEPTED inputs (p with ≥1 section, c, m, z, r, y) whose full result was compared",
                       evaluations=n_eval, distinct=len(distinct))
